@@ -289,10 +289,18 @@ func synthBody(r *rng, payloads []payloadTy, varForm bool) (string, []stmtIntent
 		}
 		st = append(st, stmtIntent{Form: "assign", Call: "FormFile", Name: "upload"})
 	}
-	if r.chance(1, 5) {
+	if r.chance(1, 3) {
 		p := pick(r, payloads)
 		x := v()
-		fmt.Fprintf(&b, "\tvar %s %s\n\t_ = FormValueJSON(c, \"jsonfield\", &%s)\n", x, p.src, x)
+		// the destination is any pointer expression: the address of a variable, a pointer variable, the address of a field
+		switch r.intn(3) {
+		case 0:
+			fmt.Fprintf(&b, "\tvar %s %s\n\t_ = FormValueJSON(c, \"jsonfield\", &%s)\n", x, p.src, x)
+		case 1:
+			fmt.Fprintf(&b, "\t%s := new(%s)\n\t_ = FormValueJSON(c, \"jsonfield\", %s)\n", x, p.src, x)
+		default:
+			fmt.Fprintf(&b, "\tvar %s struct{ F %s }\n\t_ = FormValueJSON(c, \"jsonfield\", &%s.F)\n", x, p.src, x)
+		}
 		st = append(st, stmtIntent{Form: "assign", Call: "FormValueJSON", Name: "jsonfield", Type: p.str})
 	}
 	switch r.intn(6) {
